@@ -2,7 +2,11 @@
    S <ind> <d> <n> <mu> <useRef> r1..rd x.. | d1 d2 ..     selection; after '|' the index list the
         real indicator returned (read back from the implementation): the model's oracle
    P <d> <lo> <hi> <alpha> <m> x1..xd                      PenalizingEvaluator on the box [lo,hi]^d,
-        objective (sum x^2, sum (x-2)^2) *)
+        objective (sum x^2, sum (x-2)^2)
+   I <ind> <d> <nF> <nA> <K> <aux> head.. front.. archive..   direct indicator call (C14Ind.v): the model's own
+        leastContributors; E/H over Z (integers), C over OCaml floats (carrier of the Section), H only for d = 2;
+        N (NSGA3Indicator, C14Nsga3.v) over OCaml floats, after '|' the answer of the plane solver (w.. or none)
+   X / M / T / L   variation and mating-selection operators (C14Var.v), formats as in harness/c14_var.cpp; draws after '|' *)
 open C14_model
 
 let rec nat_of_int n = if n <= 0 then O else S (nat_of_int (n - 1))
@@ -19,6 +23,24 @@ let bools l = String.concat "" (List.map (fun b -> if b then "1" else "0") l)
 let rec take n l = if n = 0 then [] else match l with [] -> [] | x :: t -> x :: take (n - 1) t
 let rec drop n l = if n = 0 then l else match l with [] -> [] | _ :: t -> drop (n - 1) t
 let rec chunks d l = match l with [] -> [] | _ -> take d l :: chunks d (drop d l)
+
+(* the coded indicators of C14Ind.v; None = no model for this configuration *)
+let fl_cd_lcs f a k =
+  cd_lcs 0.0 max_float ( +. ) ( -. ) ( /. ) (fun (x : float) y -> x < y) (fun (x : float) y -> x = y)
+    (cd_isort (fun (x : float) y -> x < y)) f a k
+let fl_cd_dist f a =
+  cd_distances 0.0 max_float ( +. ) ( -. ) ( /. ) (fun (x : float) y -> x = y)
+    (cd_isort (fun (x : float) y -> x < y)) f a
+let no_other _ _ = failwith "3-D/MD contribution routine is not modelled"
+let own_lcs ind d useref refp (fz : z list list) (az : z list list) k =
+  let tofl = List.map (List.map (fun v -> float_of_int (int_of_z v))) in
+  match ind with
+  | "E" -> Some (eps_lcs fz az k)
+  | "C" -> Some (fl_cd_lcs (tofl fz) (tofl az) k)
+  | "H" when d = 2 -> Some (hv_ind_lcs no_other (if useref then refp else []) fz az k)
+  | _ -> None
+
+let hexf (x : float) = if x <> x then "nan" else Printf.sprintf "%h" x
 
 let distinct l = List.length (List.sort_uniq compare l) = List.length l
 
@@ -51,9 +73,76 @@ let () =
             let (_, o2) = indicator_selection (least_contributors (hv_lc refp)) pts (nat_of_int mu) in
             Printf.sprintf " contribs=%s own=%s" (join sz c) (bools o2.o_sel)
           end else "" in
-        Printf.printf "ranks=%s sel=%s K=%d front=%s archive=%s ovalid=%d%s\n"
+        let nthp i = List.nth pts (int_of_nat i) in
+        let mown = match own_lcs ind d (useref = "1") refp (List.map nthp o.o_front) (List.map nthp o.o_archive) o.o_K with
+          | Some l -> " mown=" ^ join snat l | None -> "" in
+        Printf.printf "ranks=%s sel=%s K=%d front=%s archive=%s ovalid=%d%s%s\n"
           (join snat r) (bools o.o_sel) k (join snat o.o_front) (join snat o.o_archive)
-          (if ovalid then 1 else 0) extra
+          (if ovalid then 1 else 0) mown extra
+      | "I" :: ind :: d :: nf :: na :: k :: aux :: rest ->
+        let d = int_of_string d and nf = int_of_string nf and na = int_of_string na
+        and k = int_of_string k and aux = int_of_string aux in
+        let nr = if ind = "N" then aux * d else d in
+        let head = take nr rest and body = drop nr rest in
+        let fs = chunks d (take (nf * d) body) and az = chunks d (drop (nf * d) body) in
+        assert (List.length fs = nf && List.length az = na);
+        let zs = List.map (List.map (fun x -> z_of_int (int_of_string x))) in
+        let fls = List.map (List.map float_of_string) in
+        (match ind with
+         | "E" ->
+           let f = zs fs in
+           let eps = List.init nf (fun i -> match eps_result f (nat_of_int i) with None -> "inf" | Some v -> sz v) in
+           Printf.printf "lcs=%s eps=%s\n" (join snat (eps_lcs f (zs az) (nat_of_int k))) (String.concat "," eps)
+         | "H" when d = 2 ->
+           let refp = if aux = 1 then List.map (fun x -> z_of_int (int_of_string x)) head else [] in
+           Printf.printf "lcs=%s\n" (join snat (hv_ind_lcs no_other refp (zs fs) (zs az) (nat_of_int k)))
+         | "C" ->
+           let f = fls fs and a = fls az in
+           Printf.printf "lcs=%s dist=%s\n" (join snat (fl_cd_lcs f a (nat_of_int k)))
+             (join (Printf.sprintf "%h") (fl_cd_dist f a))
+         | "N" ->
+           let f = fls fs and a = fls az in
+           let zr = List.map (n3_unit 0.0 ( +. ) ( *. ) ( /. ) sqrt) (chunks d (List.map float_of_string head)) in
+           let lt (x : float) y = x < y in
+           let solve _ = match toks right with
+             | ["none"] -> None
+             | ws -> Some (List.map float_of_string ws) in
+           let l = nsga3_lcs 0.0 1.0 max_float 0.00001 ( +. ) ( -. ) ( *. ) ( /. ) lt solve zr f a (nat_of_int k) in
+           let corners = n3_corners 0.0 1.0 max_float 0.00001 ( +. ) ( -. ) ( *. ) lt (n3_translate ( -. ) lt (a @ f)) in
+           Printf.printf "lcs=%s corners=%s\n" (join snat l) (join snat corners)
+         | _ -> print_endline "NOMODEL")
+      | "X" :: n :: prob :: nc :: rest ->
+        let n = int_of_string n and prob = float_of_string prob and nc = float_of_string nc in
+        let v = List.map float_of_string rest in
+        let lo = take n v and hi = take n (drop n v) and p1 = take n (drop (2 * n) v) and p2 = take n (drop (3 * n) v) in
+        let us = List.map float_of_string (toks right) in
+        let lt (x : float) y = x < y in
+        let expp = nc +. 1. in
+        let ((c1, c2), us') = sbx 0.0 1.0 2.0 0.5 1E-7 ( +. ) ( -. ) ( *. ) ( /. ) abs_float ( ** ) lt (-. expp) (1.0 /. expp)
+            prob lo hi p1 p2 us in
+        Printf.printf "c1=%s c2=%s used=%d\n" (join hexf c1) (join hexf c2) (List.length us - List.length us')
+      | "M" :: n :: prob :: nm :: _seed :: rest ->
+        let n = int_of_string n and prob = float_of_string prob and nm = float_of_string nm in
+        let v = List.map float_of_string rest in
+        let lo = take n v and hi = take n (drop n v) and p = take n (drop (2 * n) v) in
+        let us = List.map float_of_string (toks right) in
+        let lt (x : float) y = x < y in
+        let (c, us') = pm 0.0 1.0 2.0 0.5 ( +. ) ( -. ) ( *. ) ( /. ) ( ** ) lt (nm +. 1.) (1.0 /. (nm +. 1.0)) prob lo hi p us in
+        Printf.printf "c=%s used=%d\n" (join hexf c) (List.length us - List.length us')
+      | "T" :: n :: _k :: _seed :: rest ->
+        let ranks = Array.of_list (List.map int_of_string rest) in
+        ignore n;
+        let better i j = ranks.(int_of_nat i) < ranks.(int_of_nat j) in
+        let drawn = List.map (fun x -> nat_of_int (int_of_float (float_of_string x))) (toks right) in
+        Printf.printf "idx=%d\n" (int_of_nat (tournament better drawn))
+      | "L" :: n :: mu :: rest ->
+        let n = int_of_string n and mu = int_of_string mu in
+        let ranks = Array.of_list (List.map int_of_string rest) in
+        let key i = nat_of_int ranks.(int_of_nat i) in
+        let srt = pos_isort key in
+        let sel = elitist srt (nat_of_int n) (nat_of_int mu) in
+        let order = srt (List.init n nat_of_int) in
+        Printf.printf "sel=%s out=%s\n" (bools sel) (if mu < n then join snat (take mu order) else "-")
       | "P" :: d :: lo :: hi :: alpha :: m :: xs ->
         let d = int_of_string d in
         let lo = z_of_int (int_of_string lo) and hi = z_of_int (int_of_string hi) in
